@@ -67,7 +67,7 @@ func dl(k int) mut    { return mut{del: true, k: k} }
 // control ops available for a kind
 func controls(k *kindSpec) []op {
 	var out []op
-	if k.buffer {
+	if k.buffer && !k.noFlush {
 		out = append(out, op{kind: opFlush})
 	}
 	if k.reopens {
@@ -92,11 +92,11 @@ func names(ops []op) []string {
 func unitCost(k *kindSpec) float64 {
 	switch k.class {
 	case clF, clBF:
-		return 1.6e-3
+		return 2.5e-3
 	case clBM:
-		return 5e-5
+		return 1e-4
 	}
-	return 3e-5
+	return 7e-5
 }
 
 func mkSpace(k *kindSpec, name string, ops []op, uni []int, depth int, dedup bool, base int) *opseq.Space {
@@ -151,47 +151,56 @@ func buildItems(thorough bool) []*item {
 		keys3 := []int{kA, kAPipe, kFF}
 		keys2 := []int{kA, kAPipe}
 		vals := []int{vE, v1}
-		m4, m3, m2 := mutsOf(keys4, vals), mutsOf(keys3, vals), mutsOf(keys2, vals)
-		switch k.class {
-		case clM:
+		m4, m3, m2, m1 := mutsOf(keys4, vals), mutsOf(keys3, vals), mutsOf(keys2, vals), mutsOf([]int{kA}, vals)
+		cat := func(l ...[]op) []op {
+			var out []op
+			for _, x := range l {
+				out = append(out, x...)
+			}
+			return out
+		}
+		// base ops of a graph search: single mutations, the one-mutation
+		// batches and the controls. For the buffer a batch is the only way to
+		// put a key into the buffer layer without the automatic flush, so the
+		// one-mutation batches are needed for every part to reach every layer
+		// state that longer batches reach.
+		baseOf := func(ms []mut) []op { return cat(singles(ms), batchesOf(ms, 1), ctl) }
+		switch {
+		case k.lite:
+		case k.class == clM:
 			// 81 states; every batch of <=3 mutations over 4 keys x 2 values in every state
-			b := append(batchesOf(m4, 2), batchesOf(m4, 3)...)
-			sliced(k, "graph4", append(singles(m4), ctl...), b, keys4, 4, 81, &whole)
-		case clF:
-			b := batchesOf(m4, 2)
+			sliced(k, "graph4", baseOf(m4), cat(batchesOf(m4, 2), batchesOf(m4, 3)), keys4, 4, 81, &whole)
+		case k.class == clF:
 			if thorough {
-				b = append(b, batchesOf(m4, 3)...)
-				sliced(k, "graph4", append(singles(m4), ctl...), b, keys4, 24, 81, &whole)
+				sliced(k, "graph4", baseOf(m4), cat(batchesOf(m4, 2), batchesOf(m4, 3)), keys4, 32, 81, &whole)
 			} else {
-				b = append(b, batchesOf(m2, 3)...)
-				sliced(k, "graph4", append(singles(m4), ctl...), b, keys4, 8, 81, &whole)
+				// every batch of <=2 over the 4 keys, every batch of 3 over one key
+				sliced(k, "graph4", baseOf(m4), cat(batchesOf(m4, 2), batchesOf(m1, 3)), keys4, 5, 81, &whole)
 			}
-		case clBM:
-			// state = reference x both layers: up to 9^4 layer states
-			b := batchesOf(m4, 2)
-			n := 8
+		case k.class == clBM:
+			// state = reference x both layers: up to 9 layer states per key
 			if thorough {
-				b = append(b, batchesOf(m4, 3)...)
-				n = 48
+				sliced(k, "graph3", baseOf(m3), cat(batchesOf(m3, 2), batchesOf(m3, 3)), keys3, 8, 729, &whole)
+				sliced(k, "graph4", baseOf(m4), cat(batchesOf(m4, 2), batchesOf(m2, 3)), keys4, 24, 6561, &whole)
+			} else {
+				sliced(k, "graph3", baseOf(m3), cat(batchesOf(m3, 2), batchesOf(m1, 3)), keys3, 2, 729, &whole)
 			}
-			st := 6561
-			if k.maxBuf < hugeBuf {
-				st = 1500
-			}
-			sliced(k, "graph4", append(singles(m4), ctl...), b, keys4, n, st, &whole)
-		case clBF:
-			b := append(batchesOf(m2, 2), batchesOf(m2, 3)...)
-			sliced(k, "graph2", append(singles(m2), ctl...), b, keys2, 4, 81, &whole)
+		case k.class == clBF:
 			if thorough {
-				sliced(k, "graph3", append(singles(m3), ctl...), batchesOf(m3, 2), keys3, 8, 729, &whole)
+				sliced(k, "graph2", baseOf(m2), cat(batchesOf(m2, 2), batchesOf(m2, 3)), keys2, 8, 81, &whole)
+				sliced(k, "graph3", baseOf(m3), batchesOf(m3, 2), keys3, 16, 729, &whole)
+			} else {
+				sliced(k, "graph2", baseOf(m2), cat(batchesOf(m2, 2), batchesOf(m1, 3)), keys2, 2, 81, &whole)
 			}
 		}
 
 		// --- tree: un-deduplicated histories (every history from every
 		// reached state, including reopen in the middle) ---
-		treeOps := append([]op{}, singles([]mut{st(kA, vE), st(kA, v1), st(kAPipe, v1), dl(kA), dl(kAPipe)})...)
-		treeOps = append(treeOps,
-			bt(st(kA, v1), dl(kA)), bt(dl(kA), st(kA, v1)), bt(st(kAPipe, v2), st(kA, v2)), bt(st(kA, v2), st(kA, v1), dl(kAPipe)))
+		treeOps := singles([]mut{st(kA, v1), st(kA, vE), st(kAPipe, v1), dl(kA), dl(kAPipe)})
+		treeOps = append(treeOps, bt(st(kAPipe, v2), dl(kA)))
+		if thorough {
+			treeOps = append(treeOps, bt(st(kA, v1), dl(kA)), bt(dl(kA), st(kA, v2)), bt(st(kA, v2), st(kA, v1), dl(kAPipe)))
+		}
 		treeOps = append(treeOps, ctl...)
 		depth := 4
 		switch {
@@ -200,7 +209,21 @@ func buildItems(thorough bool) []*item {
 		case k.class == clM || k.class == clBM || thorough:
 			depth = 5
 		}
+		if k.lite {
+			// with Flush/reopen: only as deep as the known hang allows at
+			// tolerable cost; without: no hang expected
+			depth = 2
+			if thorough {
+				depth = 3
+			}
+			if k.noFlush {
+				depth++
+			}
+		}
 		items = append(items, &item{sp: mkSpace(k, "tree", treeOps, keys2, depth, false, base+1)})
+		if k.lite {
+			continue
+		}
 
 		// --- sizes: keys of 767/768 bytes, values of 63000/63001 bytes ---
 		sizeKeys := []int{kA, k767, k768}
@@ -241,14 +264,22 @@ func buildItems(thorough bool) []*item {
 		switch k.class {
 		case clM, clF:
 			sliced(k, "wide-graph", wideOps, nil, keys6, 1, wst, &whole)
-		case clBM:
-			sliced(k, "wide-graph", wideOps, nil, keys6, 1, 4096, &whole)
-		case clBF:
+		case clBM, clBF:
 			wd := 3
 			if thorough {
 				wd = 4
 			}
-			items = append(items, &item{sp: mkSpace(k, "wide-tree", wideOps, keys6, wd, false, base+9)})
+			if k.class == clBM {
+				wd++
+				if thorough {
+					sliced(k, "wide-graph", wideOps, nil, keys6, 1, 4096, &whole)
+				}
+			}
+			wt := singles(mutsOf(keys6, wvals)[:6])
+			wt = append(wt, singles([]mut{dl(kAPipe), dl(kFF)})...)
+			wt = append(wt, wideOps[12:15]...)
+			wt = append(wt, ctl...)
+			items = append(items, &item{sp: mkSpace(k, "wide-tree", wt, keys6, wd, false, base+9)})
 		}
 	}
 	// spread the whole items over the shard processes: longest first onto the
